@@ -133,6 +133,27 @@ def _calls() -> Dict[str, Tuple[Callable, List[Any]]]:
         "jnp.cumprod(axis=0)": (lambda x: jnp.cumprod(x, axis=0), [F]),
         "jnp.clip(min=, max=) keywords": (lambda x: jnp.clip(x, min=-0.5, max=0.75), [F]),
         "jnp.clip(positional)": (lambda x: jnp.clip(x, -0.5, 0.75), [F]),
+        "jnp.clip(positional min, keyword max)": (lambda x: jnp.clip(x, -0.5, max=0.75), [F]),
+        "jnp.clip(None, positional max, keyword min)": (lambda x: jnp.clip(x, None, 0.75, min=-0.5), [F]),
+        "jnp.clip(only max keyword)": (lambda x: jnp.clip(x, max=0.25), [F]),
+        "jnp.diagonal(offset=1)": (lambda x: jnp.diagonal(x, offset=1), [F]),
+        "jnp.diagonal(offset=1, axis1=1, axis2=0)": (lambda x: jnp.diagonal(x, offset=1, axis1=1, axis2=0), [F]),
+        "jnp.diagonal(positional 1, -1, -2)": (lambda x: jnp.diagonal(x, 1, -1, -2), [F]),
+        "jnp.trace(offset=1)": (lambda x: jnp.trace(x, offset=1), [F]),
+        "jnp.swapaxes keywords": (lambda x: jnp.swapaxes(x, axis1=1, axis2=0), [F]),
+        "jnp.moveaxis keywords": (lambda x: jnp.moveaxis(x, source=0, destination=1), [F]),
+        "jnp.sum(axis keyword only, keepdims positional?)": (lambda x: jnp.sum(a=x, axis=0), [F]),
+        "jnp.mean(x, 1, None, None, True)": (lambda x: jnp.mean(x, 1, None, None, True), [F]),
+        "jnp.max(axis=-1 keyword)": (lambda x: jnp.max(x, axis=-1), [F]),
+        "jnp.argmax(x, 0)": (lambda x: jnp.argmax(x, 0), [F]),
+        "jnp.concatenate(arrays kw)": (lambda x: jnp.concatenate(arrays=[x, x], axis=0), [F]),
+        "jnp.where(condition kw)": (lambda x: jnp.where(condition=x > 0, x=x, y=0.5), [F]),
+        "jnp.take(indices kw)": (lambda x: jnp.take(x, indices=jnp.array([1, 0]), axis=1), [F]),
+        "jnp.reshape(shape kw)": (lambda x: jnp.reshape(x, shape=(3, 2)), [F]),
+        "jnp.tile(A kw)": (lambda x: jnp.tile(A=x, reps=2), [F]),
+        "jnp.power positional": (lambda x: jnp.power(jnp.abs(x) + 0.5, 2.0), [F]),
+        "jnp.std(axis pos)": (lambda x: jnp.std(x, 0), [F]),
+        "jnp.linspace(positional endpoint)": (lambda x: x[0] + jnp.linspace(0.0, 1.0, 3, False), [F]),
         "jnp.concatenate(axis=1, dtype=float32)": (lambda x: jnp.concatenate([x, x * 2], axis=1, dtype=jnp.float32), [F]),
         "jnp.stack(axis=-1)": (lambda x: jnp.stack([x, x + 1], axis=-1), [F]),
         "jnp.take(mode=clip)": (lambda x: jnp.take(x, jnp.array([0, 5, -1]), axis=1, mode="clip"), [F]),
@@ -250,6 +271,93 @@ def job_call(p: Dict[str, Any]) -> Dict[str, Any]:
     return {"status": "ok"}
 
 
+def job_harvest(p) -> Dict[str, Any]:
+    from mc import callforms
+    calls = callforms.harvest(p.get("max_programs"))
+    return {"calls": calls}
+
+
+def job_forms(call: Dict[str, Any]) -> Dict[str, Any]:
+    """All semantically identical call forms of one recorded library call, eager vs exported."""
+    import importlib
+    import jax
+    import jax.numpy as jnp
+    from jax2onnx import to_onnx
+    from mc import callforms, gspace as G, walker
+    tgt = importlib.import_module(call["module"])
+    attr = call["attr"]
+    orig = getattr(tgt, attr)
+    fs = callforms.forms(call, orig)
+    if len(fs) < 2:
+        return {"status": "single_form", "forms": len(fs)}
+    x0 = np.asarray(call["args"][0])
+    spec = [jax.ShapeDtypeStruct(x0.shape, x0.dtype)]
+
+    def program(a, kw):
+        rest = a[1:]
+        return lambda x: getattr(tgt, attr)(x, *rest, **kw)
+
+    def leaves(v):
+        return [np.asarray(t) for t in jax.tree_util.tree_leaves(jax.device_get(v))]
+
+    results = []
+    ref_vals = None
+    base_ok = None
+    n_rec = len(call["args"])
+    order = sorted(fs, key=lambda f: 0 if len(f[1]) == n_rec else 1)  # the recorded split first
+    for name, a, kw in order:
+        prog = program(a, kw)
+        try:
+            e = leaves(prog(jnp.asarray(x0)))
+        except Exception as ex:  # noqa: BLE001
+            results.append({"form": name, "status": "jax_rejects"})
+            continue
+        if ref_vals is None:
+            ref_vals = e
+        elif len(e) != len(ref_vals) or any(a1.shape != b1.shape or not np.array_equal(a1, b1, equal_nan=True) if a1.dtype.kind in "fc" else
+                                            (a1.shape != b1.shape or not np.array_equal(a1, b1)) for a1, b1 in zip(e, ref_vals)):
+            results.append({"form": name, "status": "jax_differs"})
+            continue
+        try:
+            m = to_onnx(prog, spec)
+        except Exception as ex:  # noqa: BLE001
+            msg = str(ex)
+            rec = {"form": name, "status": "raised", "type": type(ex).__name__, "msg": msg[:160]}
+            if base_ok is None:
+                base_ok = False
+            results.append(rec)
+            continue
+        st, out = G.ort_run(m, {m.graph.input[0].name: x0} if len(m.graph.input) else {})
+        if st != "ok":
+            if walker.ort_limitation(str(out)):
+                results.append({"form": name, "status": "ort_limitation"})
+            else:
+                results.append({"form": name, "status": "model_error", "msg": str(out)[:160]})
+            if base_ok is None:
+                base_ok = False
+            continue
+        bad = None
+        if len(out) != len(e):
+            bad = f"{len(out)} outputs vs {len(e)}"
+        else:
+            for k, (o, ee) in enumerate(zip(out, e)):
+                o = np.asarray(o)
+                if o.shape != ee.shape:
+                    bad = f"output {k} shape {o.shape} vs JAX {ee.shape}"
+                    break
+                if ee.dtype.kind in "fc":
+                    if not np.allclose(o.astype(np.float64), ee.astype(np.float64), rtol=2e-5, atol=2e-6, equal_nan=True):
+                        bad = f"output {k}: {o.reshape(-1)[:4]} vs JAX {ee.reshape(-1)[:4]}"
+                        break
+                elif not np.array_equal(o.astype(np.int64), ee.astype(np.int64)):
+                    bad = f"output {k}: {o.reshape(-1)[:4]} vs JAX {ee.reshape(-1)[:4]}"
+                    break
+        if base_ok is None:
+            base_ok = bad is None
+        results.append({"form": name, "status": "ok" if bad is None else "different", "msg": bad})
+    return {"status": "ok", "base_ok": bool(base_ok), "results": results}
+
+
 def main(tier: str) -> int:
     run = Run(PROP, tier)
     from checks.c15 import _warm  # noqa: F401
@@ -305,6 +413,40 @@ def main(tier: str) -> int:
                               {"kind": "call", "case": p})
         run.cov["call_outcomes"] = outcomes
         run.cov["calls"] = len(calls)
+        # layer 3: call forms harvested from the registered testcases themselves
+        hv = pool.map("checks.c19", "job_harvest", [{"max_programs": None}], timeout=900)[0]
+        if is_worker_failure(hv):
+            run.harness_error(f"harvest: {hv.get('_worker')} {hv.get('msg', '')[:200]}")
+            hv = {"calls": []}
+        hcalls = hv["calls"]
+        run.cov["harvested_calls"] = len(hcalls)
+        run.cov["harvested_functions"] = len({c["module"] + "." + c["attr"] for c in hcalls})
+        fstats = {"forms_exported": 0, "calls_with_several_forms": 0}
+        for _i, c, rr in pool.imap("checks.c19", "job_forms", hcalls):
+            if is_worker_failure(rr):
+                run.harness_error(f"forms {c['key']}: {rr.get('_worker')} {rr.get('msg', '')[:150]}")
+                continue
+            if rr["status"] != "ok":
+                continue
+            fstats["calls_with_several_forms"] += 1
+            if not rr["base_ok"]:
+                continue  # the form the testcase itself uses does not export / match: not a matter of call forms
+            for res in rr["results"]:
+                run.add("evaluations")
+                if res["status"] in ("ok", "different", "raised", "model_error"):
+                    fstats["forms_exported"] += 1
+                    run.add("transitions")
+                    run.add("states")
+                    run.add("distinct_nontrivial")
+                    run.add("traces_validated_against_impl")
+                if res["status"] in ("different", "raised", "model_error"):
+                    run.violation(f"forms|{c['key']}|{res['form']}",
+                                  f"{c['module']}.{c['attr']}: the call form '{res['form']}' is equivalent in eager JAX to the form the "
+                                  f"testcase uses (which exports correctly) but tracing {res['status']}: {res.get('type', '')} {res.get('msg', '')}",
+                                  {"kind": "forms", "call_key": c["key"]})
+            if len(run.cov["samples"]) < 6:
+                run.sample({"harvested_call": c["key"], "forms": [r_["form"] + ":" + r_["status"] for r_ in rr["results"]]})
+        run.cov.update(fstats)
     run._nontrivial = set()
     return run.finish()
 
